@@ -292,8 +292,11 @@ pub fn run(s: &dyn Subject, ctx: &Ctx) -> Option<DeclReport> {
     if !spec.has_tag("C09") {
         return None;
     }
-    s.arb(&[])?;
+    // stall bookkeeping first: the availability probe below is itself a call that may not terminate
     *CURRENT_DECL.lock().unwrap() = spec.id.clone();
+    CURRENT_INPUT.lock().unwrap().clear();
+    PROGRESS.fetch_add(1, Ordering::Relaxed);
+    s.arb(&[])?;
     let mut rep = DeclReport::new("C09", spec);
     let mut n = 0u64;
     let mut distinct: std::collections::BTreeSet<Value> = Default::default();
